@@ -21,13 +21,84 @@ from .common import INT_FILL, enc_ints, enc_pairs, enc_rows
 ORDERS = list(itertools.permutations(["n_edge", "edge_node_connectivity", "face_edge_connectivity", "n_nodes_per_face"]))
 
 
-def observe(ux, m, order=None):
+# ---- the ARGUMENT FORM of the face table (round h) -------------------------------------------------------------
+# Memory layout, dtype and the (fill_value, start_index) convention of what the caller hands to
+# Grid.from_topology are not part of the Lean model (the model starts from the standardized table); they are a
+# random dimension of every case, with the same verdicts.
+LAYOUTS = ["list", "C", "F", "transposed-view", "strided-view"]
+CONVENTIONS = [  # (fill_value, start_index, dtypes)
+    ("INT_FILL", 0, ["int64"]), ("INT_FILL", 1, ["int64"]),
+    (-1, 0, ["int64", "int32"]), (-1, 1, ["int64", "int32"]), (0, 1, ["int64", "int32"]),
+    ("nan", 0, ["float64", "float32"]), ("nan", 1, ["float64"]),
+    (None, 0, ["int64", "int32"]), (None, 1, ["int64", "int32"]),
+]
+STD_FORM = dict(layout="C", dtype="int64", fill="INT_FILL", start=0)
+
+
+def draw_form(rng, has_padding):
+    while True:
+        fill, start, dts = rng.choice(CONVENTIONS)
+        layout = rng.choice(LAYOUTS)
+        if fill is None and (has_padding or layout == "list"):
+            continue  # without a fill value there is no padding, and the reader subtracts start_index from an array
+        return dict(layout=layout, dtype=rng.choice(dts), fill=fill, start=start)
+
+
+def _lay(a, layout):
+    if layout == "list":
+        return a.tolist()
+    if layout == "C":
+        return np.ascontiguousarray(a)
+    if layout == "F":
+        return np.asfortranarray(a)
+    if layout == "transposed-view":  # .T of a node-major table
+        return np.ascontiguousarray(a.T).T
+    wide = np.zeros((a.shape[0], 2 * a.shape[1]), dtype=a.dtype)  # every other column of a wider array
+    wide[:, ::2] = a
+    return wide[:, ::2]
+
+
+def encode_conn(rows, form):
+    """a standardized table (0-based, INT_FILL padding) as the caller's array in the given form"""
+    a = np.array(rows, dtype=np.int64)
+    pad = a == INT_FILL
+    fill = form["fill"]
+    if form["dtype"].startswith("float"):
+        out = (a + form["start"]).astype(form["dtype"])
+        out[pad] = np.nan
+    else:
+        out = a + form["start"]
+        out[pad] = INT_FILL if fill in ("INT_FILL", None) else fill
+        out = out.astype(form["dtype"])
+    return _lay(out, form["layout"])
+
+
+def form_kwargs(form):
+    fill = form["fill"]
+    return dict(fill_value=INT_FILL if fill == "INT_FILL" else (float("nan") if fill == "nan" else fill), start_index=form["start"])
+
+
+def make_grid(m, ux, form=None, edges=None):
+    form = form or STD_FORM
+    kw = form_kwargs(form)
+    if edges is not None:
+        kw["edge_node_connectivity"] = encode_conn([list(e) for e in edges], dict(form, layout="C" if form["layout"] == "list" else form["layout"]))
+    return ux.Grid.from_topology(node_lon=m.lon.copy(), node_lat=m.lat.copy(),
+                                 face_node_connectivity=encode_conn(m.rows(), form), **kw)
+
+
+def hit_form(ctx, form):
+    ctx.hit("form:layout=" + form["layout"])
+    ctx.hit(f"form:fill={form['fill']},start={form['start']},dtype={form['dtype']}")
+
+
+def observe(ux, m, order=None, form=None):
     """The derived quantities are lazily populated, so the ORDER of first access is part of the
     input: every grid is observed in a (seeded) random order of first access, on a fresh grid,
     in one process with all the grids observed before it (a side table left behind by an
     earlier grid, or a population path that depends on what was asked first, shows up as a wrong
     table here)."""
-    g = meshes.to_grid(m, ux)
+    g = make_grid(m, ux, form)
     for name in order or ORDERS[0]:
         getattr(g, name)
     E = g.edge_node_connectivity.values
@@ -51,19 +122,28 @@ def canon(edges, fe):
     return [key[i] for i in order], [[ren.get(x, x) for x in r] for r in fe]
 
 
-def judge(ctx, m, tag, order=None):
+def judge(ctx, m, tag, order=None, form=None):
     import uxarray as ux
 
     t = m.rows()
     w = m.width
     order = list(ctx.rng.choice(ORDERS)) if order is None else order
-    inp = dict(mesh=m.describe(), table=t, tag=tag, access_order=order)
+    form = form or draw_form(ctx.rng, len(set(m.sizes())) > 1)
+    inp = dict(mesh=m.describe(), table=t, tag=tag, access_order=order, argument_form=form)
     ctx.hit("first-access=" + order[0])
+    hit_form(ctx, form)
     try:
-        g, o = observe(ux, m, order)
+        g, o = observe(ux, m, order, form)
     except Exception as e:  # the real code refuses a well-formed table
         ctx.case((tag, t), sample=inp)
-        ctx.fail(f"C02/raises/{type(e).__name__}/first-access={order[0]}", f"edge construction raises {type(e).__name__}: {e}", inp)
+        ctx.fail(f"C02/raises/{type(e).__name__}/layout={form['layout']}/fill={form['fill']}", f"edge construction raises {type(e).__name__}: {e}", inp)
+        return
+    if [[int(x) for x in r] for r in g.face_node_connectivity.values] != t:
+        # the reader's job (C01), but everything below is judged against `t`
+        ctx.case((tag, t), sample=inp)
+        ctx.fail(f"C02/face-table-not-standardized/layout={form['layout']}/fill={form['fill']},start={form['start']},dtype={form['dtype']}",
+                 "Grid.face_node_connectivity is not the 0-based, INT_FILL-padded form of the table handed in", inp,
+                 dict(face_node_connectivity=g.face_node_connectivity.values))
         return
     d = ctx.driver
     std = d.ask("C02.std", m.n_node, w, enc_rows(t))
@@ -80,8 +160,8 @@ def judge(ctx, m, tag, order=None):
     ctx.hit("closed" if m.closed else "partial")
     if verdict != "ok":
         clauses = verdict.split(" ", 1)[1].split(",")
-        ctx.fail("C02/" + "+".join(clauses), "edge tables do not describe the faces' boundary segments: " + verdict,
-                 inp, o, model, clauses)
+        sig = "C02/" + "+".join(clauses) + ("" if form["layout"] in ("list", "C") else "/layout=" + form["layout"])
+        ctx.fail(sig, "edge tables do not describe the faces' boundary segments: " + verdict, inp, o, model, clauses)
         return
     # further observable clauses of the property
     if o["n_edge"] != len(o["edges"]):
@@ -206,7 +286,7 @@ def malformed_stream(ctx):
 SUPPLIED_VIA = ["from_topology", "ugrid-dataset"]
 
 
-def ugrid_dataset(m, G):
+def ugrid_dataset(m, G, layout="C"):
     """a UGRID dataset that ships its own edge table (own variable / dimension names, cf_role attributes)"""
     import xarray as xr
 
@@ -216,7 +296,7 @@ def ugrid_dataset(m, G):
         face_node_connectivity="mesh_face_nodes", edge_node_connectivity="mesh_edge_nodes"))
     ds["mesh_node_x"] = xr.DataArray(m.lon.copy(), dims=["nMesh_node"], attrs=dict(standard_name="longitude", units="degrees_east"))
     ds["mesh_node_y"] = xr.DataArray(m.lat.copy(), dims=["nMesh_node"], attrs=dict(standard_name="latitude", units="degrees_north"))
-    ds["mesh_face_nodes"] = xr.DataArray(m.table().copy(), dims=["nMesh_face", "nMaxMesh_face_nodes"],
+    ds["mesh_face_nodes"] = xr.DataArray(np.asarray(_lay(m.table().copy(), layout)), dims=["nMesh_face", "nMaxMesh_face_nodes"],
                                          attrs=dict(cf_role="face_node_connectivity", start_index=0, _FillValue=INT_FILL))
     ds["mesh_edge_nodes"] = xr.DataArray(np.array(G, dtype=np.int64).reshape(-1, 2), dims=["n_edge", "Two"],
                                          attrs=dict(cf_role="edge_node_connectivity", start_index=0))
@@ -236,7 +316,7 @@ def draw_supplied(rng, E0):
     return dict(kind=kind, perm=perm, flip=flip, via=rng.choice(SUPPLIED_VIA))
 
 
-def judge_supplied(ctx, m, tag, sup=None, order=None):
+def judge_supplied(ctx, m, tag, sup=None, order=None, form=None):
     """grids whose SOURCE supplies edge_node_connectivity (Grid.from_topology(edge_node_connectivity=...) or a UGRID
     dataset with an edge table): the supplied table is the grid's edge table (same rows, same numbering, same
     orientation) and face_edge_connectivity indexes into it; a table that misses an edge is re-derived.  Such grids
@@ -249,15 +329,17 @@ def judge_supplied(ctx, m, tag, sup=None, order=None):
     sup = sup or draw_supplied(ctx.rng, E0)
     G = [((E0[i][1], E0[i][0]) if f else tuple(E0[i])) for i, f in zip(sup["perm"], sup["flip"])]
     order = list(ctx.rng.choice(ORDERS)) if order is None else order
-    inp = dict(mesh=m.describe(), table=t, tag=tag, supplied=sup, supplied_edge_table=G, access_order=order)
+    form = form or draw_form(ctx.rng, len(set(m.sizes())) > 1)
+    hit_form(ctx, form)
+    inp = dict(mesh=m.describe(), table=t, tag=tag, supplied=sup, supplied_edge_table=G, access_order=order, argument_form=form)
     key = (tag, t, G, sup["via"])
     ctx.hit(f"supplied:{sup['via']}:{sup['kind']}")
     ctx.hit("supplied:first-access=" + order[0])
     try:
         if sup["via"] == "from_topology":
-            g = meshes.to_grid(m, ux, edge_node_connectivity=np.array(G, dtype=np.int64).reshape(-1, 2))
+            g = make_grid(m, ux, form, edges=G)
         else:
-            g = ux.open_grid(ugrid_dataset(m, G))
+            g = ux.open_grid(ugrid_dataset(m, G, form["layout"]))
         for name in order:
             getattr(g, name)
         o = dict(edges=[(int(a), int(b)) for a, b in g.edge_node_connectivity.values],
@@ -322,17 +404,19 @@ def derive(g, der):
     return g
 
 
-def judge_derived(ctx, m, tag, der=None, order=None):
+def judge_derived(ctx, m, tag, der=None, order=None, form=None):
     """the statement is about EVERY grid the library hands out, so the same verdict (Lean `Edges.Spec` on the
     grid's own face table) is asked of grids derived by isel/copy from a parent with any history"""
     import uxarray as ux
 
     der = der or draw_derivation(ctx.rng, m)
     order = list(ctx.rng.choice(ORDERS)) if order is None else order
-    inp = dict(mesh=m.describe(), table=m.rows(), tag=tag, derivation=der, access_order=order)
+    form = form or draw_form(ctx.rng, len(set(m.sizes())) > 1)
+    hit_form(ctx, form)
+    inp = dict(mesh=m.describe(), table=m.rows(), tag=tag, derivation=der, access_order=order, argument_form=form)
     key = (tag, m.rows(), str(der))
     try:
-        g = derive(meshes.to_grid(m, ux), der)
+        g = derive(make_grid(m, ux, form), der)
         for name in order:
             getattr(g, name)
         t = [[int(x) for x in r] for r in g.face_node_connectivity.values]
@@ -418,6 +502,8 @@ def run(ctx):
     ctx.rule += ("; the comparison with the model is entry for entry (identical edge numbering) on built grids; a separate "
                  "malformed-input stream (tables NOT in standard form: fill inside / at the start of a row, empty rows, indices out of "
                  "range or negative) compares code and model entry for entry and is reported without verdict")
+    ctx.rule += ("; the ARGUMENT FORM of the face table is a random dimension of every case: list of lists / C-ordered / F-ordered / "
+                 "transposed view / strided view, int64 / int32 / float with NaN fill, (fill_value, start_index) conventions")
     ctx.assumptions = ["np.unique(axis=0) is modelled as sort + dedup in lexicographic row order (proved of the model: edges_sorted, "
                        "uniqPair_eq_of_sorted); that NumPy does the same, and the NumPy semantics of argmax/np.put/searchsorted/reshape, "
                        "are tied to the model by this differential run with IDENTICAL tables, also on non-standard tables",
@@ -447,10 +533,11 @@ def replay(ctx, rp):
     import uxarray as ux
 
     observe(ux, meshes.prism(5))
+    form = inp.get("argument_form") or STD_FORM
     if inp.get("supplied"):
-        judge_supplied(ctx, m, "replay", inp["supplied"], inp.get("access_order"))
+        judge_supplied(ctx, m, "replay", inp["supplied"], inp.get("access_order"), form)
         return
     if inp.get("derivation"):
-        judge_derived(ctx, m, "replay", inp["derivation"], inp.get("access_order"))
+        judge_derived(ctx, m, "replay", inp["derivation"], inp.get("access_order"), form)
         return
-    judge(ctx, m, "replay", inp.get("access_order"))
+    judge(ctx, m, "replay", inp.get("access_order"), form)
